@@ -988,12 +988,21 @@ def c01(ctx):
     prof = {"cmd": SIZES_CMD, "hcap": SIZES_HIST, "sets": ALLSETS, "prompts": [0, 1, 2], "steps": (10, 70),
             "alphabet": ALLCH + sessions.W1, "enter_forms": ENTER_FORMS, "hs_out": 0.3, "hs_prompt": 0.2,
             "w": {"word": 12, "enter": 10, "quote": 4, "dash": 4, "space": 8}}
+    prof["alphabet"] = prof["alphabet"] + [0x5B, 0x5B, 0x41, 0x42, 0x4F, 0x7E, 0x3B]
     tight = dict(prof, cmd=[0, 1, 2, 3], hcap=[0, 1, 2, 3], steps=(10, 40))
-    return cli_property(ctx, "C01",
+    # lines that are quoted renderings of short string lists (empty strings at every position)
+    rngq = random.Random(ctx.seed + 1)
+    strs = [[], [0x61], [0x20], [0x22], [0x61, 0x20], [0xE9]]
+    qlists = [[a] for a in strs] + [[a, b] for a in strs for b in strs] + [[a, b, c] for a in strs[:4] for b in strs[:4] for c in strs[:4]]
+    qscripts = []
+    for i, l in enumerate(qlists):
+        steps = [{"ev": "byte", "b": b} for b in utf8s(render([[0x63]] + l) if rngq.random() < 0.7 else render(l))] + [{"ev": "byte", "b": 13}]
+        qscripts.append({"sid": 900001 + i, "cfg": {"cmd": 48, "hcap": 16, "set": "raw", "prompt": 0, "rawproc": i % 2 == 0}, "steps": steps})
+    return cli_property(ctx, "C01", extra_scripts=qscripts, mc_consts=
                         [dict(SMALL, WithApi=False)] if q else [dict(MED, WithApi=False), dict(BIG, WithApi=False, NoEmit=True)],
-                        2000 if q else 150000,
-                        [(700 if q else 20000, prof), (300 if q else 10000, tight)],
-                        "every transition (quick: a seeded sample) of the closed MC_Cli graphs replayed on the real Cli through its "
+                        mc_limit=2000 if q else 150000,
+                        profiles=[(700 if q else 20000, prof), (300 if q else 10000, tight)],
+                        rule="every transition (quick: a seeded sample) of the closed MC_Cli graphs replayed on the real Cli through its "
                         "shortest path, and random sessions (all keys, all four terminator forms, characters of every length, "
                         "buffers 0..64); every process_byte call validated by TLC: handler calls = Classify(Tokenize(line before "
                         "Enter)) exactly once iff a token and no help request, none for any other key; line empty and one fresh "
@@ -1207,6 +1216,9 @@ def c14_scenarios():
     add("raw", 8, 16, ["a", "<enter>", "bb", "<enter>", "<up>", "<up>", "<up>", "<down>", "<down>", "<down>"])
     add("leds", 16, 16, ["g", "<tab>", "e", "<tab>", "<bs>", "<bs>", "<bs>", "<bs>", "<bs>", "ex", "<tab>", "<enter>"])
     add("mixed", 16, 0, ["  ж", "<tab>", "а", "<left>", "<left>", "<tab>"])
+    add("leds", 16, 8, ["ge", "<left>", "<tab>", "x"])
+    add("leds", 16, 8, ["exi  ", "<left>", "<left>", "<tab>"])
+    add("raw", 12, 8, ["aЖ", "<left>", "中", "😀", "<bs>"])
     add("raw", 16, 16, ["run 1", "<enter>"], out1)
     add("raw", 16, 16, ["say \"a b\" -x", "<enter>"], out2)
     add("raw", 16, 4, ["\"q\\\"r\" z", "<left>", "<enter>"], out3, prompt=2)
@@ -1531,11 +1543,34 @@ def derive_requests(rng, tier, roots, by_id, help_lines=False):
                 # help-shaped lines: `help path...`, and the help option inserted at every position
                 add(["help"] + base)
                 add(["help"] + base + ["extra"])
-                n_rand = 12 if q else 150
+                n_rand = 8 if q else 150
                 lines = [base, base + [rng.choice(alpha)]] + [base + [rng.choice(alpha) for _ in range(rng.randint(1, 4))] for _ in range(n_rand)]
-                for ln in lines:
+                if len(path) > 1:
+                    # options of the parent commands (short and long forms, with values) before each sub-command name
+                    for _ in range(6 if q else 60):
+                        ts = []
+                        cur = e
+                        chain = []
+                        for idx, name in enumerate(path):
+                            ts.append(name)
+                            owner = next((vv for pp, vv in paths if pp == tuple(path[:idx + 1])), None)
+                            if owner is not None and idx < len(path) - 1:
+                                for a in owner["args"]:
+                                    if a["kind"] != "pos" and rng.random() < 0.6:
+                                        form = ("-" + a["short"]) if (a["short"] and (not a["has_long"] or rng.random() < 0.6)) else ("--" + a["long"])
+                                        ts.append(form)
+                                        if a["kind"] == "opt":
+                                            ts.append(VALUE_POOL[a["ty"]][0])
+                        lines.append(ts)
+                        lines.append(ts + [rng.choice(alpha)])
+                for li, ln in enumerate(lines):
                     for pos in range(1, len(ln) + 1):
-                        for h in (["--help"], ["-h"], ["-zh"], ["-hz"]):
+                        hs = [["--help"], ["-h"], ["-zh"], ["-hz"]]
+                        if not q or (li < 2 and pos in (1, len(ln))):
+                            hs += [["-\u0e01h"], ["-中h"], ["-é😀h"]]
+                        elif q and rng.random() < 0.5:
+                            hs = hs[:2]
+                        for h in hs:
                             add(ln[:pos] + h + ln[pos:])
         if help_lines:
             add(["help"])
@@ -1690,6 +1725,16 @@ def c03(ctx):
     for i, x in enumerate(rand):
         x["cfg"]["poison"] = (i % 2 == 0)
     scripts += rand
+    # Tab with every amount of room (exact fits included), and long lines with the cursor far from the end
+    # while the application writes / changes the prompt
+    tabs = c11_systematic(ctx)
+    for i, x in enumerate(tabs):
+        x["sid"] = 3000000 + i
+    nav = {"cmd": [16, 32, 40, 64], "hcap": [0, 32], "sets": ALLSETS, "prompts": [0, 2, 4], "steps": (30, 120),
+           "alphabet": ALLCH + sessions.W1, "hs_out": 0.3, "hs_prompt": 0.2, "partial": [0, 3],
+           "w": {"char": 45, "left": 40, "right": 10, "bs": 4, "write": 6, "prompt": 5, "enter": 2, "tab": 3, "up": 3, "down": 1, "word": 4}}
+    navs = sessions.gen_sessions(rng, 300 if q else 6000, nav, sid0=4000000)
+    scripts += tabs + navs
     validate_cli(ctx, vh, scripts, "C03", "c03", shards=12)
     if not q:
         # Miri is slow here (about 15 s per session): a small sample of short boundary sessions
